@@ -42,7 +42,8 @@ static Path64 mk(int len, int64_t id) {
   if (len >= 4) p.push_back(Point64(id, (int64_t)30));
   return p;
 }
-static double nd_delta() { double d = nondet_double(); ASSUME((d >= 0.5 && d <= 1e6) || (d <= -0.5 && d >= -1e6)); return d; }
+// inflating by up to 1e6, shrinking by at most 14 (the test paths are 40x30: a larger shrink may legitimately be skipped as vanishing)
+static double nd_delta() { double d = nondet_double(); ASSUME((d >= 0.5 && d <= 1e6) || (d <= -0.5 && d >= -14.0)); return d; }
 
 static void run_group(const Paths64& paths, JoinType jt, EndType et, double delta, double arc_tol, Paths64& sol) {
   ClipperOffset& co = *new ClipperOffset(2.0, arc_tol);
@@ -143,5 +144,20 @@ extern "C" void harness_tiny_delta() {
   NLOG = 0; co.Execute(delta, sol);
   VA(NLOG == 0);                       // no offsetting worker ran
   VA(C.n_add == 1 && C.n_paths == 1 && C.n_exec == 1);
+  verif_reach();
+}
+
+// C07: the Group constructor treats Polygon and Joined paths as closed (a closing duplicate of the first vertex and repeated
+// vertices are stripped) and open end types as open (only repeated consecutive vertices are stripped)
+extern "C" void harness_group_ctor() {
+  EndType et = (EndType)nd_int(0, 4); JoinType jt = (JoinType)nd_int(0, 3);
+  Paths64 in(1);
+  in[0].push_back(Point64((int64_t)0, (int64_t)0)); in[0].push_back(Point64((int64_t)40, (int64_t)0)); in[0].push_back(Point64((int64_t)40, (int64_t)0));
+  in[0].push_back(Point64((int64_t)40, (int64_t)30)); in[0].push_back(Point64((int64_t)0, (int64_t)0));      // A B B C A
+  ClipperOffset::Group& g = *new ClipperOffset::Group(in, jt, et);
+  VA(g.paths_in.size() == 1 && g.join_type == jt && g.end_type == et);
+  bool closed = et == EndType::Polygon || et == EndType::Joined;
+  VA(g.paths_in[0].size() == (closed ? (size_t)3 : (size_t)4));
+  VA(g.lowest_path_idx.has_value() == (et == EndType::Polygon));
   verif_reach();
 }
